@@ -290,6 +290,20 @@ CHECKS['C18'] = {
     ],
 }
 
+CHECKS['C11'] = {
+    'level': 'exploration',
+    'technique': 'schedule-exploring property testing: the real muscle::Thread (both signalling mechanisms) runs on the harness-owned scheduler (hooks in Mutex, WaitCondition, Thread lifecycle and the socket wait); generated send/receive/start/shutdown/restart scripts; exactly-once and per-sender FIFO invariants over the history; deadlock detection for lost wake-ups',
+    'level_text': ('Generated (script, schedule) search: owner plus 0-2 extra sender threads send numbered Messages to an echo thread; the owner receives with zero, finite and infinite deadlines; Messages may be queued before start; shutdown+wait; restart of the same Thread object; every context switch and timeout firing is chosen by the schedule bytes. '
+                   'Oracle: replies arrive exactly once and in per-sender order, nothing arrives after shutdown, ShutdownInternalThread(true) returns, and no state is reached where every thread is blocked (a lost wake-up is reported as DEADLOCK with the schedule). Held = no explored schedule violated these.'),
+    'level_note': SC_NOTE + ' An untimed receive may return B_TIMED_OUT on a stale signal byte (the library\'s own loop treats that as recoverable); scripts retry and count it.',
+    'rule': ('Byte-decoded cases: configuration + receive plan + schedule. Non-trivial: at least one preemption and at least two block-then-wake events (so sends and waits actually interleaved). Distinct: hash of configuration and of the choices made.'),
+    'assumptions': [],
+    'targets': [
+        {'name': 'c11_thread', 'src': ['harness/C11_thread.cpp'], 'quick_n': 150000, 'thorough_n': 3000000, 'maxlen': 300, 'min_nontrivial': 20000, 'budget': 120,
+         'class_floors': {'signalling_socket_pair': 3000, 'signalling_wait_condition': 3000, 'case_messages_queued_before_start': 3000, 'case_restart_of_same_thread_object': 2000, 'case_extra_sender_threads': 3000}},
+    ],
+}
+
 
 def setup():
     t0 = time.time()
